@@ -1,4 +1,5 @@
 import Treepath.Proofs.MutateLemmas
+import Treepath.Proofs.NaturalNext
 /- C08 — set_ assigns exactly one slot, or fails without a trace -/
 namespace Treepath.C08
 
@@ -80,5 +81,46 @@ theorem history_size (ops : List ((Heap → List (Step Val)) × Val)) (src : Src
     cases r with
     | error e => simp [he e rfl]
     | ok m => exact (hok m rfl).2.1
+
+/-- **"inside the first node matched by the parent path"**, against the definition: when a
+non-cascading `set_` succeeds, the new match is a child of a node `pm` of the object store,
+and `pm` is — location for location, value unfolding to value — the *first result of the
+step-by-step definition* of the parent path evaluated on the JSON tree the document unfolds
+to.  (Naturality of the traverser in the document type + the exception-faithful refinement;
+the steps over the heap and over the tree are the same steps, filters being related
+predicates.) -/
+theorem set_parent_is_the_definitions_first (stepsOf : Heap → List (Step Val)) (root : Val) (j : J)
+    (n : Nat) (h h' : Heap) (v : Val) (m : MNode Val) (hu : Unf h root j)
+    (sb : Array (Step J)) (hsteps : LRel (StepRel (Unf h)) ((stepsOf h).take n) sb.toList) (hp : PredsClean sb)
+    (hset : setMatchN stepsOf (.doc root) false (n+1) h v = (h', .ok m)) :
+    ∃ pm pm' nm, m = .child pm nm v ∧ NodeRel (Unf h) pm pm' ∧ (evalE sb.toList (.root j)).1.head? = some pm' := by
+  simp only [setMatchN] at hset
+  split at hset
+  · simp at hset
+  · rename_i last _
+    split at hset
+    · rename_i pm hg
+      obtain ⟨pm', hrel, hhead⟩ := getMatch_heap_found h root j hu ((stepsOf h).take n).toArray sb (by simpa using hsteps) hp true pm hg
+      split at hset
+      · rename_i h2 m2 hvs
+        simp only [Prod.mk.injEq, Except.ok.injEq] at hset
+        obtain ⟨_, rfl⟩ := hset
+        -- the new match is a child of `pm`
+        simp only [vertexSet] at hvs
+        split at hvs
+        · split at hvs
+          · simp only [Except.ok.injEq, Prod.mk.injEq] at hvs; exact ⟨pm, pm', _, hvs.2.symm, hrel, hhead⟩
+          · simp at hvs
+        · split at hvs
+          · split at hvs
+            · simp only [Except.ok.injEq, Prod.mk.injEq] at hvs; exact ⟨pm, pm', _, hvs.2.symm, hrel, hhead⟩
+            · split at hvs
+              · simp only [Except.ok.injEq, Prod.mk.injEq] at hvs; exact ⟨pm, pm', _, hvs.2.symm, hrel, hhead⟩
+              · simp at hvs
+          · simp at hvs
+        · simp at hvs
+      · simp at hset
+    · simp at hset
+    · split at hset <;> simp at hset
 
 end Treepath.C08
